@@ -6,6 +6,14 @@ Prints one line per change: which properties raised an unlisted violation and by
 import json, os, re, shutil, subprocess, sys, tempfile
 root = sys.argv[1]
 SCRATCH = "--scratch" in sys.argv
+# --snapshot: run the checks from a frozen copy of /verif (rules, engine, tables), so that a long sweep is not affected by edits made
+# to the rules while it runs; the fact cache of /verif is shared through a symlink
+VERIF_DIR = "/verif"
+if "--snapshot" in sys.argv:
+    VERIF_DIR = tempfile.mkdtemp(prefix="verif-snap-")
+    subprocess.run("rsync -a --exclude .cache --exclude .git --exclude seeded --exclude benign --exclude evidence /verif/ %s/ && ln -s /verif/.cache %s/.cache && mkdir -p %s/evidence" % (VERIF_DIR, VERIF_DIR, VERIF_DIR), shell=True, check=True)
+    import atexit
+    atexit.register(lambda: shutil.rmtree(VERIF_DIR, ignore_errors=True))
 out = sys.argv[sys.argv.index("--out") + 1] if "--out" in sys.argv else None
 only = [a for a in sys.argv[2:] if not a.startswith("--") and a != out]
 def sh(cmd, cwd=None):
@@ -22,7 +30,7 @@ def scratch_run(p):
         sh("rsync -a --exclude target --exclude .git %s/ %s/" % (os.environ.get("SWEEP_BASE", "/repo"), tmp))
         if sh("patch -p1 --no-backup-if-mismatch -s -F3 -i %s" % p, tmp).returncode != 0:
             return None
-        return subprocess.run("./check ALL", shell=True, cwd="/verif", capture_output=True, text=True,
+        return subprocess.run("./check ALL", shell=True, cwd=VERIF_DIR, capture_output=True, text=True,
                               env=dict(os.environ, VERIF_REPO=tmp, VERIF_EVIDENCE_DIR=ev))
     finally:
         shutil.rmtree(tmp, ignore_errors=True)
